@@ -106,7 +106,7 @@ func strs(vs []pqfile.Val) []string {
 
 // features lists the unsupported features applicable to a leaf.
 func featuresFor(leaf *pqfile.Node) []string {
-	fs := []string{"index_page", "data_page_v2", "codec_lzo", "codec_brotli", "codec_lz4", "codec_zstd", "codec_lz4_raw", "codec_unassigned_8", "codec_unassigned_1000", "codec_negative"}
+	fs := []string{"index_page", "index_page_without_body", "empty_dictionary_page_then_plain", "data_page_v2", "codec_lzo", "codec_brotli", "codec_lz4", "codec_zstd", "codec_lz4_raw", "codec_unassigned_8", "codec_unassigned_1000", "codec_negative"}
 	if leaf.Type != pqfile.TBoolean {
 		fs = append(fs, "dictionary_rle", "dictionary_plain", "dictionary_page_then_plain")
 	}
@@ -216,6 +216,15 @@ func applyFeature(wc *pqfile.WChunk, pi int, feature string) bool {
 		}
 		dvals, dictBody, _ := extra.Dictionary(leaf.Type, src.Vals)
 		dict := pqfile.WPage{Type: pqfile.PDictionary, NumValues: int32(len(dvals)), Body: dictBody, DictEnc: pqfile.EPlain}
+		wc.Pages = append([]pqfile.WPage{dict}, wc.Pages...)
+	case "index_page_without_body":
+		idx := pqfile.WPage{Type: pqfile.PIndex, Body: []byte{}}
+		np := append([]pqfile.WPage{}, wc.Pages[:pi]...)
+		np = append(np, idx)
+		wc.Pages = append(np, wc.Pages[pi:]...)
+	case "empty_dictionary_page_then_plain":
+		// a dictionary page without entries (writers emit it for chunks they then store PLAIN)
+		dict := pqfile.WPage{Type: pqfile.PDictionary, NumValues: 0, Body: []byte{}, DictEnc: pqfile.EPlain}
 		wc.Pages = append([]pqfile.WPage{dict}, wc.Pages...)
 	case "index_page":
 		idx := pqfile.WPage{Type: pqfile.PIndex, Body: []byte{1, 2, 3, 4, 5, 6, 7, 8}}
